@@ -1,6 +1,7 @@
 """C06 (Shapley value: S1-S6) and C05 (exploitability: X1-X3)."""
 from __future__ import annotations
 
+import ast
 from fractions import Fraction
 
 from ..core import AnalysisError, AnchorMissing, FuncRef, Program
@@ -42,6 +43,27 @@ def linear(t: Term, atoms: dict) -> dict | None:
     return None
 
 
+def factorial_arg(prog: Program, col: Collector, t: Term, where: str, fn: str):
+    """The argument k when ``t`` is k!: math.factorial(k), or a table look-up with that fallback (`T[k] if k < len(T) else factorial(k)`)
+    whose literal table is checked entry by entry against i! (folding of literals, nothing is run).  None otherwise."""
+    import math
+    if is_call_to(t, *FACT) and len(t[2]) == 1:
+        return t[2][0]
+    if t[0] in ("ifexp", "phi") and is_call_to(t[3], *FACT) and len(t[3][2]) == 1 and t[2][0] == "index" and t[2][2] == t[3][2][0] and t[2][1][0] == "global":
+        k, table = t[3][2][0], t[2][1]
+        if t[1] not in (("cmp", "<", k, ("call", ("global", "len"), (table,), ())),):
+            return None
+        gv = prog.global_value(table[1])
+        if gv is None or not isinstance(gv[1], (ast.Tuple, ast.List)) or not all(isinstance(x, ast.Constant) and type(x.value) is int for x in gv[1].elts):
+            return None
+        wrong = [(i, x.value) for i, x in enumerate(gv[1].elts) if x.value != math.factorial(i)]
+        col.check(not wrong, where, fn, f"every entry i of the factorial table {table[1].rsplit('.', 1)[-1]} is i!"
+                  + (f" (entry {wrong[0][0]} is {wrong[0][1]}, {wrong[0][0]}! = {math.factorial(wrong[0][0])})" if wrong else ""),
+                  construct="factorial-table", necessity="a mistyped table entry changes every Shapley weight (and the divisor n!) for exactly the player counts that reach it", rule="S1")
+        return k
+    return None
+
+
 def rule_c06_shapley(prog: Program, col: Collector) -> None:
     pid = col.property_id
     # ---- S1 weights
@@ -62,11 +84,12 @@ def rule_c06_shapley(prog: Program, col: Collector) -> None:
     col.check(okr, cref.where(), cref.short, "sizes s range over range(n): n entries starting at 0", construct="coef-range",
               necessity="the coefficient for size s must sit at index s; n sizes 0..n-1 of the coalition without the player")
     body = g[2]
-    if not (body[0] == "bin" and body[1] == "*" and is_call_to(body[2], *FACT) and is_call_to(body[3], *FACT)):
+    fa = [factorial_arg(prog, col, body[i], cref.where(), cref.short) for i in (2, 3)] if body[0] == "bin" and body[1] == "*" else [None, None]
+    if None in fa:
         col.undecidable(cref.where(), cref.short, f"coefficient is not a product of two factorials: {short(body, 80)}")
         return
     atoms = {npar: "n", elem: "s"}
-    forms = [linear(body[2][2][0], atoms), linear(body[3][2][0], atoms)]
+    forms = [linear(fa[0], atoms), linear(fa[1], atoms)]
     want = [{"s": 1}, {"n": 1, "s": -1, 1: -1}]
     okf = None not in forms and (forms == want or forms == want[::-1])
     col.check(okf, cref.where(), cref.short, f"factorial arguments are {{s, n - s - 1}} (found {forms})", construct="coef-weights",
@@ -92,6 +115,13 @@ def rule_c06_shapley(prog: Program, col: Collector) -> None:
     for r in rets[:-1]:
         col.check(False, wref.where(r.node), wref.short, f"the Shapley value is the one weighted sum (extra return of {short(r.value, 50)})", construct="shapley-extra-return",
                   necessity="a shortcut return changes the value for the inputs that take it; the definition holds for every game", rule="S5")
+    # marginal contributions are SIGNED: no absolute value, peak-to-peak or clipping anywhere in the worker
+    unsigned = [e for e in wft.calls() if is_global(e.func, "numpy.ptp", "numpy.abs", "numpy.absolute", "numpy.fabs", "abs", "math.fabs", "numpy.clip", "numpy.maximum")
+                or (e.name in ("ptp", "clip") and e.recv is not None)]
+    for e in unsigned:
+        col.check(False, wref.where(e.node), wref.short, f"the marginal contribution v(S + i) - v(S) enters with its sign (found {short(e.func, 30)})",
+                  construct="marginal-unsigned", necessity="np.ptp / abs give |v(S+i) - v(S)|: every negative marginal contribution (non-monotone bounds, cost games) enters with "
+                  "the wrong sign; monotone non-negative games hide it", rule="S5")
     rv = rets[-1].value
     if not (rv[0] == "bin" and rv[1] == "/" and rv[3] == nfac):
         col.check(False, wref.where(), wref.short, "the weighted sum is divided by n! (the n_fac argument)", construct="divide-nfac",
@@ -218,7 +248,7 @@ def rule_c06_shapley(prog: Program, col: Collector) -> None:
             continue
         a = calls[0].args
         okc = len(a) == 4 and a[1] == gp and a[2] == ("call", ("global", P + "shapley._get_contributions"), (nplayers,), ()) \
-            and is_call_to(a[3], *FACT) and a[3][2] == (nplayers,)
+            and factorial_arg(prog, col, a[3], ref.where(calls[0].node), ref.short) == nplayers
         col.check(okc, ref.where(calls[0].node), ref.short, "worker(singleton, game, _get_contributions(n), factorial(n)) with n = game.number_of_players",
                   construct="entry-args", necessity="the single-player and all-players entry points must return the same numbers")
         # singleton
